@@ -411,6 +411,20 @@ def run_shard(spec, ctx):
             ctx.violation('reading a cart whose code area is used up to %+d bytes from its end raised %r' % (d, e), case)
             return
         ctx.monitor('edge_carts_read_back')
+        # ... and the same text through the cart writer: every byte of the code area and the version byte behind it reach the picture
+        try:
+            buf = io.BytesIO()
+            P8PNGFormatter.to_file(carts.make_game(regions, code=t, version=8), buf)
+            ref = rc.read_p8png(buf.getvalue())
+        except Exception as e:
+            ctx.violation('the cart writer raised %r for a text that get_bytes_from_code packs (stream ends %+d bytes from the end of the area)' % (e, d), case)
+            return
+        ctx.monitor('edge_carts_written')
+        if bytes(ref['code_area']) != bytes(area) or ref['version'] != 8:
+            k = next((i for i in range(rc.CODE_SIZE) if ref['code_area'][i] != area[i]), -1)
+            ctx.violation('the picture written for a cart whose stream ends %+d bytes from the end of the code area does not hold the packed '
+                          'area (first difference at area offset %d; version byte %d, cart has 8)' % (d, k, ref['version']), case)
+            return
         if back not in (t, t + b'\n'):
             ctx.violation('a cart whose code area is used up to %+d bytes from its end reads back as %d bytes of code, the text has %d' % (
                 d, len(back), len(t)), case)
